@@ -104,6 +104,7 @@ func (*c18aWorld) Info() kernel.WorldInfo {
 			"races are detected on instrumented accesses to FeeQuotes/FeeQuote/Fee/FeeUnit fields and map contents (statement granularity); encoding/json, math/big and go-bk run atomically (no yield points inside)",
 			"consumer operations (Change / IsFeePaidEnough / EstimateFeesPaid on a task-private tx) take part in race detection but not in the linearizability history (they read two fee types in two critical sections)",
 			"porcupine Unknown (timeout) is counted, never reported",
+			"FeeQuotes.Fee (a two-level read: the miner's quote, then that quote's fee) is not part of the linearizability model either: its answer must be the default or a fee that a write of that type, invoked before the read returned, stored",
 			"Expired() is not part of the linearizability model (the clock is not an object the quote guards): each answer must be explained by some expiry value the quote could have held during the call and some clock value shown during the call",
 		},
 		Real:        []string{"all of fees.go (instrumented copy)", "fee consumers in tx.go / txchange.go", "encoding/json (atomic)"},
